@@ -22,6 +22,9 @@ EDGE_U = {
     "wide": [0, 1, 2, 3, 5, 8, 11, 13, 21],
     "large": list(range(0, 120, 3)),
 }
+# int nodes with string edge IDs and the other way round; the string forms overlap ("1" / 1)
+NODE_U["cross_is"], EDGE_U["cross_is"] = [0, 1, 2, 3, 4, 7], ["0", "1", "2", "e0", "x", "7"]
+NODE_U["cross_si"], EDGE_U["cross_si"] = ["a", "b", "1", "2", "7", "zz"], [0, 1, 2, 3, 5, 7]
 try:
     import numpy as _np
 
@@ -54,10 +57,14 @@ class Gen:
         if self.cfg.get("unicode_labels") and self.profile == "strs":
             # multi-byte UTF-8 sequences, so that short reads / writes cut through characters
             return NODE_U["strs"] + ["é", "日本", "ñu", "ß1"]
-        return NODE_U[self.profile]
+        return NODE_U[self.profile] + self._dict_words()
 
     def edge_u(self):
-        return EDGE_U[self.profile]
+        return EDGE_U[self.profile] + self._dict_words()
+
+    def _dict_words(self):
+        # strings that the library itself uses (cfg["dict_words"], see xgiverif/dictionary.py)
+        return list(self.cfg.get("dict_words", [])) if self.profile in ("strs", "mixed") else []
 
     def pick_node(self, model, p_existing=0.75):
         if model.nodes and self.r.random() < p_existing:
@@ -101,7 +108,8 @@ class Gen:
         if as_dict and d and self.r.random() < 0.15:
             # a dict handed over *as a dict* (never as **kwargs) may carry any key: one that is also
             # a parameter name of the mutators, or (where nothing goes through JSON) a non-string key
-            keys = ["node", "self", "idx", "members", "edge"] + ([] if self.cfg.get("json_attrs") else [2020])
+            keys = ["node", "self", "idx", "members", "edge", ""] + ([] if self.cfg.get("json_attrs") else [2020])
+            keys += [w for w in self.cfg.get("dict_words", []) if w not in ("weight", "w")]
             d[self.r.choice(keys)] = self.r.choice([0, 1, 2])
         return d
 
@@ -153,7 +161,7 @@ class Gen:
         k = self.r.choice(kinds)
         f = {"kind": k}
         if k in ("none_member", "unhashable_member", "empty_in_bulk", "none_node", "unhashable_node",
-                 "attr_pairs", "attr_junk"):
+                 "attr_pairs", "attr_junk", "exotic_id"):
             f["item"] = self.r.randrange(max(1, n_items))
             f["pos"] = self.r.randrange(4)
         if k == "dying":
@@ -280,7 +288,7 @@ class Gen:
     def g_H_add_edge(self, name, m, op):
         mem = self.members(m, 0 if self.r.random() < 0.04 else 1, 4)
         idx = self.new_idx(m) if self.r.random() < self.cfg.get("explicit_idx_rate", 0.45) else None
-        fault = self.maybe_fault(["none_member", "unhashable_member"])
+        fault = self.maybe_fault(["none_member", "unhashable_member", "exotic_id"])
         return self.rec(name, op, {"members": mem, "idx": idx, "attr": self.attr(single=True),
                                    "mtype": self.mtype()}, fault)
 
@@ -313,7 +321,7 @@ class Gen:
         fmt = self.r.choice(self.cfg.get("bulk_fmts", [1, 1, 2, 3, 4, 5]))
         items = self._bulk_items(m, fmt)
         fault = self.maybe_fault(["none_member", "unhashable_member", "dying", "empty_in_bulk", "attr_pairs",
-                                  "attr_junk"], len(items))
+                                  "attr_junk", "exotic_id"], len(items))
         return self.rec(name, op, {"fmt": fmt, "items": items, "attr": self.attr(), "mtype": self.mtype(),
                                    "stream": self.stream()}, fault)
 
@@ -392,7 +400,7 @@ class Gen:
         if self.profile == "npints" and rename == "tuple":
             rename = "first"  # numpy ints compared with tuple IDs broadcast: not a label mix worth modelling
         rule = self.r.choice(["first", "union", "intersection"] + (["bogus"] if self.r.random() < 0.1 else []))
-        mult = self.r.choice([None, None, "mult", "weight"])
+        mult = self.r.choice([None, None, "mult", "weight", ""])  # "" is a legal (falsy) attribute name
         return self.rec(name, op, {"rename": rename, "merge_rule": rule, "multiplicity": mult})
 
     def g_H_cleanup(self, name, m, op):
@@ -432,7 +440,7 @@ class Gen:
         if tail and self.r.random() < 0.25:
             head.append(tail[0]) if tail[0] not in head else None  # node in both tail and head
         idx = self.new_idx(m, dh=False) if self.r.random() < self.cfg.get("explicit_idx_rate", 0.45) else None
-        fault = self.maybe_fault(["none_member", "unhashable_member"])
+        fault = self.maybe_fault(["none_member", "unhashable_member", "exotic_id"])
         if fault:
             fault["item"] = self.r.randrange(2)
         return self.rec(name, op, {"tail": tail, "head": head, "idx": idx, "attr": self.attr(single=True),
@@ -441,7 +449,8 @@ class Gen:
     def g_DH_add_edges_from(self, name, m, op):
         fmt = self.r.choice(self.cfg.get("bulk_fmts", [1, 1, 2, 3, 4, 5]))
         items = self._bulk_items(m, fmt, dh=True)
-        fault = self.maybe_fault(["none_member", "unhashable_member", "dying", "attr_pairs", "attr_junk"], len(items))
+        fault = self.maybe_fault(["none_member", "unhashable_member", "dying", "attr_pairs", "attr_junk", "exotic_id"],
+                                 len(items))
         return self.rec(name, op, {"fmt": fmt, "items": items, "attr": self.attr(), "mtype": self.mtype(),
                                    "stream": self.stream()}, fault)
 
@@ -472,6 +481,8 @@ class Gen:
         if self.profile == "large" and self.r.random() < 0.3:
             hi = 10  # a 10-node simplex has 1012 faces of two or more nodes
         lo = 0 if (allow_empty and self.r.random() < 0.04) else 1
+        if hi == 10 and self.r.random() < 0.5:
+            lo = 9  # (3**9 subface entries are replayed when such a complex is copied)
         mem = self.members(m, lo, hi, 0.5)
         if m.edges and self.r.random() < 0.2:
             mem = csort(self.r.choice(list(m.edges.values())))  # already-present simplex
@@ -479,7 +490,7 @@ class Gen:
 
     def g_SC_add_simplex(self, name, m, op):
         idx = self.new_idx(m) if self.r.random() < self.cfg.get("explicit_idx_rate", 0.4) else None
-        fault = self.maybe_fault(["none_member", "unhashable_member"])
+        fault = self.maybe_fault(["none_member", "unhashable_member", "exotic_id"])
         return self.rec(name, op, {"members": self._simplex(m, allow_empty=True), "idx": idx,
                                    "attr": self.attr(single=True), "mtype": self.mtype()}, fault)
 
@@ -514,7 +525,7 @@ class Gen:
         mo = self.r.choice([None, None, 1, 2, 3])
         items = self._sc_items(m, fmt, mo is not None)
         fault = self.maybe_fault(["none_member", "unhashable_member", "dying", "empty_in_bulk", "attr_pairs",
-                                  "attr_junk"], len(items))
+                                  "attr_junk", "exotic_id"], len(items))
         return self.rec(name, op, {"fmt": fmt, "items": items, "attr": self.attr(), "max_order": mo,
                                    "mtype": self.mtype(), "stream": self.stream()}, fault)
 
